@@ -192,6 +192,17 @@ def classify_consumption(ctx, b, cs):
                     t = fl.forward(srcs)
                     if not any(e['ops'] and (fl.op_tainted(e['ops'][0], t) or any(fl.op_tainted(o, t) for o in e.get('inner_ops', []))) for e in err_exits):
                         problems.append('the io::Error carried by %s does not flow to an Err exit' % v)
+                    # every way out of this arm must report the I/O error itself (not a skippable error)
+                    reach_v = b.reach([tgt])
+                    for e in b.exits():
+                        if e['point'] not in reach_v:
+                            continue
+                        carries = e['kind'] == 'err' and ((e.get('adt') in iob and iob[e['adt']].get(e.get('variant'))) or (e['ops'] and fl.op_tainted(e['ops'][0], t) and e.get('adt') is None))
+                        if e['kind'] == 'err_prop':
+                            carries = True
+                        if not carries:
+                            problems.append('the %s arm can leave through %s (%s), which does not carry the I/O error' % (v, b.loc(e['point']), e.get('variant') or e['kind']))
+                            break
             if not inner:
                 # undiscriminated Err arm
                 for (bi, path, adt, edges) in top:
@@ -658,3 +669,30 @@ def corruption_sites(b):
             if st['k'] == 'assign' and st['rv']['k'] == 'agg' and st['rv'].get('agg') == 'adt' and st['rv']['variant'] == 'Corruption':
                 out.append(b.pstart[bi] + si)
     return out
+
+
+@rule('ERR3', ['C11', 'C17'], floor=1, template='effect-confinement')
+def err3(ctx):
+    """Reading the WAL never creates files: a WAL file that cannot be opened is an error, not something to
+    recreate (the only creation during recovery is the first file of an empty directory)."""
+    n = 0
+    for b in ctx.f.bodies.values():
+        if b.generic_dup():
+            continue
+        if b.name.startswith('<rolling::directory::RollingReader as block_read_write::BlockRead>::next_block'):
+            n += 1
+            may = ctx.E.may().get(b.id, set())
+            ctx.check('CREATE' not in may, '%s:no-create' % b.path, b.span, 'moving to the next block / file cannot create a file',
+                      'the recovery reader can create a WAL file while reading (a listed file that went missing would be silently recreated empty instead of reported)')
+    # the body that opens an existing WAL file read-write uses no creating flag
+    for b in ctx.f.bodies.values():
+        if b.generic_dup():
+            continue
+        opens = [cs for (p, e, cs) in ctx.E.direct_sites(b) if e in ('OPENRW', 'CREATE') and cs.name.startswith('std::fs::OpenOptions::open')]
+        ms = ctx.E.openoptions_methods(b)
+        if opens and 'read' in ms and 'write' in ms:
+            n += 1
+            bad = sorted(ms & {'create', 'create_new', 'truncate', 'append'})
+            ctx.check(not bad, '%s:opens-existing-only' % b.path, b.span, 'existing WAL files are opened with read+write only', 'the function that opens an existing WAL file can create/truncate it (%s)' % bad, nontrivial=False)
+    if n == 0:
+        ctx.missing('reader', 'next_block / open_file not found')
